@@ -96,7 +96,7 @@ Definition run_holds (c : c03_case) (r : c03_run) : bool :=
    Part of `agree`: Props.C03_agree_implies_holds applies to exactly the cases that pass it. *)
 Fixpoint nodupb (l : list nat) : bool :=
   match l with [] => true | x :: r => negb (existsb (Nat.eqb x) r) && nodupb r end.
-Definition wf_opb (o : op) : bool := match o with EqDict l => nodupb (map fst l) | _ => true end.
+Definition wf_opb (o : op) : bool := match o with EqDict l | NeDict l => nodupb (map fst l) | _ => true end.
 Definition small_opb (o : op) : bool := forallb (fun k => Nat.ltb k 100) (op_keys o).
 Definition wf_caseb (c : c03_case) : bool :=
   Nat.leb 1 (ca_max c)
